@@ -12,7 +12,8 @@ PROP = {'gen': [],
                'image, glyph; any constraint with min <= max; both glyph settings): layout returns a tree (no underflow, no division by '
                'zero, no invalid clamp); text/flex/container/image/glyph/fill sizes lie within the constraint; render with any layout '
                'tree never panics and changes nothing outside its surface, with layout\'s own tree it completes; every probe leaf is '
-               'handed exactly the window the layout tree records for it; find_path follows the first child containing the position. '
+               'handed exactly the window the layout tree records for it and every leaf kind paints only inside its recorded rectangle; '
+               'find_path follows the first child containing the position. '
                'Model tied to the code by a differential run over trees built through constructors, FlexRef and JSON.',
  'level_note': 'Trusted: Coq kernel + vm_compute; hand-written model validated by the correspondence run; extents saturate at usize::MAX as in '
                'the repaired code; flex factors dyadic (see assumptions). No axioms (closed).',
